@@ -21,6 +21,7 @@ import (
 	"github.com/hydraide/hydraide/app/core/settings/setting"
 	"github.com/hydraide/hydraide/app/name"
 	"github.com/hydraide/hydraide/app/panichandler"
+	"github.com/hydraide/hydraide/app/verifhook"
 )
 
 type Hydra interface {
@@ -406,8 +407,10 @@ func (h *hydra) SummonSwamp(ctx context.Context, islandID uint64, swampName name
 	// different waiters at the same time.
 	var waiter *SwampWaiter
 	for {
+		verifhook.Point("summon.load")
 		result, _ := h.summoningSwamps.LoadOrStore(swampName.Get(), newSwampWaiter())
 		waiter, _ = result.(*SwampWaiter)
+		verifhook.Point("summon.loaded", verifhook.ID(waiter))
 
 		// lezárjuk a következő kódrészt, így csak egyetlen rutin futhatja egyszerre egy domain néven belül
 		waiter.cond.L.Lock()
@@ -415,6 +418,7 @@ func (h *hydra) SummonSwamp(ctx context.Context, islandID uint64, swampName name
 			break
 		}
 		// the last owner removed this waiter from the map after we loaded it: take the current one
+		verifhook.Point("summon.retry", verifhook.ID(waiter))
 		waiter.cond.L.Unlock()
 	}
 	atomic.AddInt32(&waiter.count, 1)
@@ -424,8 +428,10 @@ func (h *hydra) SummonSwamp(ctx context.Context, islandID uint64, swampName name
 	leaveWaiter := func() {
 		// ha nincs több várakozó goroutin, akkor töröljük a várakozó mapből a swampot
 		remaining := atomic.AddInt32(&waiter.count, -1)
+		verifhook.Point("summon.leave", verifhook.ID(waiter), int64(remaining))
 		if remaining == 0 {
 			waiter.dead = true
+			verifhook.Point("summon.slotdelete", verifhook.ID(waiter))
 			h.summoningSwamps.Delete(swampName.Get())
 		}
 	}
@@ -436,34 +442,42 @@ func (h *hydra) SummonSwamp(ctx context.Context, islandID uint64, swampName name
 			// Ha a kontextus megszakad, jelezzük a többi várakozó goroutinnak, hogy ne várjanak tovább
 			leaveWaiter()
 			waiter.cond.Broadcast()
+			verifhook.Point("summon.ctxleave", verifhook.ID(waiter))
 			waiter.cond.L.Unlock()
 			return nil, ctx.Err() // Visszatérünk a kontextus hibaüzenetével
 		default:
+			verifhook.Point("summon.wait", verifhook.ID(waiter))
 			waiter.cond.Wait()
+			verifhook.Point("summon.woke", verifhook.ID(waiter))
 		}
 	}
 	waiter.ready = true
+	verifhook.Point("summon.entered", verifhook.ID(waiter))
 	waiter.cond.L.Unlock()
 
 	defer func() {
 		// Swamp véglegesítése után
+		verifhook.Point("summon.exit", verifhook.ID(waiter))
 		waiter.cond.L.Lock()
 		waiter.ready = false
 		// csökkentjük a várakozó goroutinok számát
 		leaveWaiter()
 		waiter.cond.Broadcast() // Értesítjük a többi várakozót
+		verifhook.Point("summon.broadcast", verifhook.ID(waiter))
 		waiter.cond.L.Unlock()
 	}()
 
 	var swampObject swamp.Swamp
 
 	for {
+		verifhook.Point("summon.body")
 		select {
 		case <-ctx.Done():
 
 			// we can not wait the summoning to finish, because the caller context is done
 			// maybe this is a very long-running process, and the caller context is done meanwhile
 			slog.Warn("the summoning context is done, summoning is cancelled", "swampName", swampName)
+			verifhook.Point("summon.ctxdone")
 
 			return nil, errors.New("context is done")
 
@@ -482,7 +496,9 @@ func (h *hydra) SummonSwamp(ctx context.Context, islandID uint64, swampName name
 				// Calling the IsClosing function – if it returns false, it prevents the swamp from closing immediately,
 				// giving the caller time to set the BeginVigil instruction so that the swamp doesn't close
 				// during the transaction.
+				verifhook.Point("summon.found", verifhook.ID(swampObject))
 				if swampObject.IsClosing() {
+					verifhook.Point("summon.waitclose", verifhook.ID(swampObject))
 
 					var swampCloseError error
 
@@ -517,20 +533,25 @@ func (h *hydra) SummonSwamp(ctx context.Context, islandID uint64, swampName name
 
 					// No error occurred, the swamp has been successfully closed,
 					// so we can move on and begin summoning it again.
+					verifhook.Point("summon.closed", verifhook.ID(swampObject))
 					continue
 
 				}
 
+				verifhook.Point("summon.return", verifhook.ID(swampObject))
 				return swampObject, nil
 
 			}
 
 			// The swamp does not exist in memory, so we need to create it.
 			// During creation, other processes trying to access this swamp will still have to wait.
+			verifhook.Point("summon.create")
 			swampObject = h.createNewSwamp(islandID, swampName)
 
 			// Store the swamp in the hydra map, which is a sync.Map.
+			verifhook.Point("summon.store", verifhook.ID(swampObject))
 			h.swamps.Store(swampName.Get(), swampObject)
+			verifhook.Point("summon.stored", verifhook.ID(swampObject))
 
 			// start sending events to the subscribers if there are any clients subscribed to the events
 			if h.hasEventSubscriber(swampName) {
@@ -1103,5 +1124,6 @@ func (h *hydra) infoCallbackFunction(si *swamp.Info) {
 
 // closeEventCallbackFunction removes the swamp from the opened swamps map
 func (h *hydra) closeEventCallbackFunction(swampName name.Name) {
+	verifhook.Point("swamp.mapdelete")
 	h.swamps.Delete(swampName.Get())
 }
